@@ -150,3 +150,67 @@ func VerifC07_IndexFromFile() {
 		vAssert(idx.Length() == int64(len(data)), "IndexFromFile reported success with an index that does not cover the input")
 	}
 }
+
+// VerifC07_TarUntar: packing and unpacking with a cancelled context.
+func VerifC07_TarUntar() {
+	vSchedFixed(true)
+	vPreempt(0)
+	root := vTempDir()
+	os.Mkdir(root+"/src", 0755)
+	os.Mkdir(root+"/dst", 0755)
+	os.WriteFile(root+"/src/a", []byte("A"), 0644)
+	os.WriteFile(root+"/src/b", []byte("B"), 0644)
+	var archive bytes.Buffer
+	vAssert(Tar(context.Background(), &archive, NewLocalFS(root+"/src", LocalFSOptions{})) == nil, "Tar failed")
+	ctx, cancel := context.WithCancel(context.Background())
+	cancel()
+	var partial bytes.Buffer
+	err := Tar(ctx, &partial, NewLocalFS(root+"/src", LocalFSOptions{}))
+	vCover("tar-returned")
+	if err == nil {
+		vAssert(bytes.Equal(partial.Bytes(), archive.Bytes()), "Tar with a cancelled context reported success with an incomplete archive")
+	}
+	err = UnTar(ctx, bytes.NewReader(archive.Bytes()), NewLocalFS(root+"/dst", LocalFSOptions{}))
+	vCover("untar-returned")
+	if err == nil {
+		a, e1 := os.ReadFile(root + "/dst/a")
+		b, e2 := os.ReadFile(root + "/dst/b")
+		vAssert(e1 == nil && e2 == nil && string(a) == "A" && string(b) == "B", "UnTar with a cancelled context reported success without unpacking everything")
+	}
+}
+
+// VerifC07_UnTarIndex: the chunked unpack path; the cancelled assembler closes the pipe,
+// which must not look like a clean end of the archive.
+func VerifC07_UnTarIndex() {
+	root := vTempDir()
+	os.Mkdir(root+"/src", 0755)
+	os.Mkdir(root+"/dst", 0755)
+	os.WriteFile(root+"/src/a", []byte("A"), 0644)
+	os.WriteFile(root+"/src/b", []byte("B"), 0644)
+	var archive bytes.Buffer
+	vSchedFixed(true)
+	vAssert(Tar(context.Background(), &archive, NewLocalFS(root+"/src", LocalFSOptions{})) == nil, "Tar failed")
+	vSchedFixed(false)
+	data := archive.Bytes()
+	// two chunks, cut between the two entries' elements
+	cut := len(data) / 2
+	vFSYield(false) // only the pipeline's own synchronisation points are cancellation instants here
+	// the pipeline's goroutines hand over deterministically when one blocks; what is explored
+	// is where the cancelling goroutine preempts that run (every synchronisation point)
+	vSchedBlockFixed(true)
+	st := &verifStore{}
+	idx := Index{Index: FormatIndex{FeatureFlags: CaFormatSHA512256 | TarFeatureFlags, ChunkSizeMin: 1, ChunkSizeAvg: 1, ChunkSizeMax: uint64(len(data))}}
+	for _, r := range [][2]int{{0, cut}, {cut, len(data)}} {
+		id := st.add(data[r[0]:r[1]])
+		idx.Chunks = append(idx.Chunks, IndexChunk{ID: id, Start: uint64(r[0]), Size: uint64(r[1] - r[0])})
+	}
+	ctx, cancel := verifCancelLater()
+	defer cancel()
+	err := UnTarIndex(ctx, NewLocalFS(root+"/dst", LocalFSOptions{}), idx, st, 1, NullProgressBar{})
+	vCover("returned")
+	if err == nil {
+		a, e1 := os.ReadFile(root + "/dst/a")
+		b, e2 := os.ReadFile(root + "/dst/b")
+		vAssert(e1 == nil && e2 == nil && string(a) == "A" && string(b) == "B", "UnTarIndex reported success although the tree was not unpacked completely")
+	}
+}
